@@ -2,8 +2,9 @@
 extension -- of /repo's current working tree.  The extension modules lying in /repo/src/dtaidistance are
 untracked build products of unknown age, so they are never used: this module builds the extension from the
 current sources in a scratch copy outside /repo and /verif (removed afterwards), keeps only the resulting
-shared objects in /verif/build/ext/<hash of the C / Cython sources>/, and assembles
-/verif/build/pkg/<hash of everything>/src/dtaidistance = current .py files + those shared objects.
+shared objects in <tmp>/dvc_native_cache_<uid>/ext/<hash of the C / Cython sources>/, and assembles
+<tmp>/dvc_native_cache_<uid>/pkg/<hash of everything>/src/dtaidistance = current .py files + those shared objects
+(a cache: anything missing is rebuilt; only the current entry and one predecessor are kept).
 A change to any C, header, .pyx/.pxd or setup file therefore triggers a rebuild (about a minute); a change to
 Python sources only re-copies the .py files."""
 import fcntl
@@ -80,7 +81,9 @@ def native_root(repo):
     extf, pyf = _files(repo)
     eh = _hash(repo, extf)
     fh = _hash(repo, extf + pyf)
-    bdir = os.path.join(HERE, 'build')
+    # the cache holds copies of repository files, so it lives outside /repo and /verif; nothing depends on it surviving
+    # (a missing entry is rebuilt), and only the current entry plus one predecessor is kept
+    bdir = os.path.join(tempfile.gettempdir(), 'dvc_native_cache_%d' % os.getuid())
     os.makedirs(os.path.join(bdir, 'ext'), exist_ok=True)
     os.makedirs(os.path.join(bdir, 'pkg'), exist_ok=True)
     with open(os.path.join(bdir, 'ext.lock'), 'w') as lock:
@@ -104,7 +107,7 @@ def native_root(repo):
         for sub, keep in (('pkg', fh), ('ext', eh)):
             d = os.path.join(bdir, sub)
             entries = sorted((os.path.getmtime(os.path.join(d, x)), x) for x in os.listdir(d) if x != keep and '.tmp' not in x)
-            for _, x in entries[:-3]:
+            for _, x in entries[:-1]:
                 shutil.rmtree(os.path.join(d, x), ignore_errors=True)
     _CACHE[repo] = root
     return root
